@@ -17,6 +17,9 @@ Transcription notes
 * Go maps are association lists with distinct keys. `for k, v := range fields` over a map assigns every key once,
   so `fieldsToTypedMaps` is the four-way split; `typeMapsToFields` is transcribed with overwriting assignments
   in the order of the source (strings, ints, floats, bools).
+* a Go `string` is its byte list (`Str = List Nat`): Go strings hold arbitrary bytes, proto3 `string` fields only
+  valid UTF-8 — `proto.Marshal` fails otherwise (`marshalOK`, `validUTF8` transcribe `utf8.Valid`), `writeData`
+  returns the error and the server aborts (`Session.aborted`).
 * `time.Time` is its `UnixNano()` (an `Int`); `time.Unix(0, ns).UTC()` is the identity on it (Go runtime, trusted;
   times outside the int64 nanosecond range are outside the protocol's domain).
 * not modelled: process / socket management, the keepalive timer, abort paths, hostile peers (C05): where the Go
@@ -122,73 +125,93 @@ def readAllOld (ewd : Bool) (cs : Chunks) : List (List Nat) × RdErr :=
 
 /-! ## 2. Data: `models`, `edge/messages.go` -/
 
+/-- A Go `string`: its bytes (not necessarily UTF-8). -/
+abbrev Str := List Nat
+
 /-- A field value: `string`, `float64` (its IEEE bit pattern), `int64`, `bool` — the four types
 `fieldsToTypedMaps` supports (anything else panics there: C05). -/
 inductive FV where
-  | str (s : String)
+  | str (s : Str)
   | float (bits : Nat)
   | int (i : Int)
   | bool (b : Bool)
 deriving DecidableEq, Repr, Inhabited
 
-abbrev GoMap (α : Type) := List (String × α)
-abbrev Tags := GoMap String
+abbrev GoMap (α : Type) := List (Str × α)
+abbrev Tags := GoMap Str
 abbrev Fields := GoMap FV
 
 /-- `m[k]` of a `map[string]string` (missing key ⇒ ""). -/
-def tagVal (tags : Tags) (k : String) : String :=
+def tagVal (tags : Tags) (k : Str) : Str :=
   match tags.find? (fun e => e.1 == k) with
   | some e => e.2
-  | none => ""
+  | none => []
 
 /-- `m[k] = v`. -/
-def mapSet {α : Type} (m : GoMap α) (k : String) (v : α) : GoMap α :=
+def mapSet {α : Type} (m : GoMap α) (k : Str) (v : α) : GoMap α :=
   if m.any (fun e => e.1 == k) then m.map (fun e => if e.1 == k then (k, v) else e) else m ++ [(k, v)]
 
-/-- `models.ToGroupID(name, tags, dims)`. -/
-def toGroupID (name : String) (tags : Tags) (byName : Bool) (dims : List String) : String :=
-  if dims.isEmpty then (if byName then name else "")
-  else (if byName then name ++ "\n" else "") ++ ",".intercalate (dims.map (fun d => d ++ "=" ++ tagVal tags d))
+/-- `strings.Join(parts, ",")`. -/
+def joinComma : List Str → Str
+  | [] => []
+  | [a] => a
+  | a :: rest => a ++ 44 :: joinComma rest
 
-/-- `models.SortedKeys`. -/
-def sortedKeys (tags : Tags) : List String := (tags.map (·.1)).mergeSort (fun a b => decide (a ≤ b))
+/-- `models.ToGroupID(name, tags, dims)` (`'\n'` = 10, `','` = 44, `'='` = 61). -/
+def toGroupID (name : Str) (tags : Tags) (byName : Bool) (dims : List Str) : Str :=
+  if dims.isEmpty then (if byName then name else [])
+  else (if byName then name ++ [10] else []) ++ joinComma (dims.map (fun d => d ++ 61 :: tagVal tags d))
+
+/-- Go's `<` on strings: bytewise lexicographic. -/
+def strLt : Str → Str → Bool
+  | _, [] => false
+  | [], _ :: _ => true
+  | a :: as, b :: bs => a < b || (a == b && strLt as bs)
+
+def insertStr (x : Str) : List Str → List Str
+  | [] => [x]
+  | y :: ys => if strLt y x then y :: insertStr x ys else x :: y :: ys
+
+/-- `models.SortedKeys` (`sort.Strings` of the map's keys; modelled by insertion sort — the keys of a map are
+distinct, so the sorted slice is unique whatever the algorithm). -/
+def sortedKeys (tags : Tags) : List Str := (tags.map (·.1)).foldr insertStr []
 
 /-- `edge.pointMessage`. -/
 structure Point where
-  name : String
-  db : String
-  rp : String
+  name : Str
+  db : Str
+  rp : Str
   byName : Bool
-  dims : List String
-  group : String
+  dims : List Str
+  group : Str
   tags : Tags
   fields : Fields
   time : Int
 deriving DecidableEq, Repr, Inhabited
 
 /-- `edge.NewPointMessage`. -/
-def newPoint (name db rp : String) (byName : Bool) (dims : List String) (fields : Fields) (tags : Tags) (time : Int) : Point :=
+def newPoint (name db rp : Str) (byName : Bool) (dims : List Str) (fields : Fields) (tags : Tags) (time : Int) : Point :=
   { name, db, rp, byName, dims, group := toGroupID name tags byName dims, tags, fields, time }
 
 /-- `edge.beginBatchMessage`. -/
 structure Begin where
-  name : String
+  name : Str
   tags : Tags
   byName : Bool
-  dims : List String
-  group : String
+  dims : List Str
+  group : Str
   tmax : Int
   sizeHint : Int
 deriving DecidableEq, Repr, Inhabited
 
 /-- `edge.NewBeginBatchMessage`: the dimensions are the sorted tag keys. -/
-def newBegin (name : String) (tags : Tags) (byName : Bool) (tmax : Int) (sizeHint : Int) : Begin :=
+def newBegin (name : Str) (tags : Tags) (byName : Bool) (tmax : Int) (sizeHint : Int) : Begin :=
   let dims := sortedKeys tags
   { name, tags, byName, dims, group := toGroupID name tags byName dims, tmax, sizeHint }
 
 /-- `beginBatchMessage.SetTagsAndDimensions` (what `GroupByNode` calls): the tags become exactly the dimension
 tags, the dimension list is taken as given. -/
-def Begin.setTagsAndDimensions (b : Begin) (tags : Tags) (byName : Bool) (dims : List String) : Begin :=
+def Begin.setTagsAndDimensions (b : Begin) (tags : Tags) (byName : Bool) (dims : List Str) : Begin :=
   let newTags := dims.foldl (fun m d => mapSet m d (tagVal tags d)) []
   { b with tags := newTags, byName := byName, dims := dims, group := toGroupID b.name newTags byName dims }
 
@@ -212,30 +235,30 @@ deriving DecidableEq, Repr, Inhabited
 
 structure PBPoint where
   time : Int
-  name : String := ""
-  db : String := ""
-  rp : String := ""
-  group : String
-  dims : List String := []
+  name : Str := []
+  db : Str := []
+  rp : Str := []
+  group : Str
+  dims : List Str := []
   byName : Bool := false
   tags : Tags
   fDouble : GoMap Nat
   fInt : GoMap Int
-  fString : GoMap String
+  fString : GoMap Str
   fBool : GoMap Bool
 deriving DecidableEq, Repr, Inhabited
 
 structure PBBegin where
-  name : String
-  group : String
+  name : Str
+  group : Str
   tags : Tags
   size : Int
   byName : Bool
 deriving DecidableEq, Repr, Inhabited
 
 structure PBEnd where
-  name : String
-  group : String
+  name : Str
+  group : Str
   tmax : Int
   tags : Tags
   byName : Bool := false
@@ -243,7 +266,7 @@ deriving DecidableEq, Repr, Inhabited
 
 inductive Request where
   | info
-  | init (task node : String)
+  | init (task node : Str)
   | keepalive (t : Int)
   | snapshot
   | restore (b : List Nat)
@@ -258,21 +281,65 @@ inductive Response where
   | keepalive (t : Int)
   | snapshot (b : List Nat)
   | restore (ok : Bool)
-  | error (e : String)
+  | error (e : Str)
   | begin (b : PBBegin)
   | point (p : PBPoint)
   | endB (e : PBEnd)
 deriving DecidableEq, Repr, Inhabited
 
+/-! ## 3b. `proto.Marshal` of a proto3 message fails iff a `string` field is not valid UTF-8 -/
+
+def isCont (b : Nat) : Bool := 0x80 ≤ b && b ≤ 0xBF
+
+/-- `utf8.Valid` (Unicode Table 3-7: no overlong forms, no surrogates, nothing above U+10FFFF). -/
+def validUTF8 : Str → Bool
+  | [] => true
+  | b0 :: rest =>
+    if b0 < 0x80 then validUTF8 rest
+    else if 0xC2 ≤ b0 && b0 ≤ 0xDF then
+      match rest with
+      | b1 :: r => isCont b1 && validUTF8 r
+      | _ => false
+    else if 0xE0 ≤ b0 && b0 ≤ 0xEF then
+      match rest with
+      | b1 :: b2 :: r =>
+        (if b0 == 0xE0 then 0xA0 ≤ b1 && b1 ≤ 0xBF else if b0 == 0xED then 0x80 ≤ b1 && b1 ≤ 0x9F else isCont b1) &&
+          isCont b2 && validUTF8 r
+      | _ => false
+    else if 0xF0 ≤ b0 && b0 ≤ 0xF4 then
+      match rest with
+      | b1 :: b2 :: b3 :: r =>
+        (if b0 == 0xF0 then 0x90 ≤ b1 && b1 ≤ 0xBF else if b0 == 0xF4 then 0x80 ≤ b1 && b1 ≤ 0x8F else isCont b1) &&
+          isCont b2 && isCont b3 && validUTF8 r
+      | _ => false
+    else false
+
+def mapStrings {α : Type} (m : GoMap α) : List Str := m.map (·.1)
+
+def PBPoint.strings (p : PBPoint) : List Str :=
+  [p.name, p.db, p.rp, p.group] ++ p.dims ++ p.tags.flatMap (fun e => [e.1, e.2]) ++ mapStrings p.fDouble ++
+    mapStrings p.fInt ++ p.fString.flatMap (fun e => [e.1, e.2]) ++ mapStrings p.fBool
+
+/-- The `string` fields of a request (`bytes` fields — snapshots — carry anything). -/
+def Request.strings : Request → List Str
+  | .init t n => [t, n]
+  | .begin b => [b.name, b.group] ++ b.tags.flatMap (fun e => [e.1, e.2])
+  | .point p => p.strings
+  | .endB e => [e.name, e.group] ++ e.tags.flatMap (fun e => [e.1, e.2])
+  | _ => []
+
+/-- `proto.Marshal(req)` succeeds. -/
+def marshalOK (r : Request) : Bool := r.strings.all validUTF8
+
 /-! ## 4. `udf/server.go`, the writing side -/
 
-def strsOf (f : Fields) : GoMap String := f.filterMap (fun e => match e.2 with | .str s => some (e.1, s) | _ => none)
+def strsOf (f : Fields) : GoMap Str := f.filterMap (fun e => match e.2 with | .str s => some (e.1, s) | _ => none)
 def floatsOf (f : Fields) : GoMap Nat := f.filterMap (fun e => match e.2 with | .float x => some (e.1, x) | _ => none)
 def intsOf (f : Fields) : GoMap Int := f.filterMap (fun e => match e.2 with | .int x => some (e.1, x) | _ => none)
 def boolsOf (f : Fields) : GoMap Bool := f.filterMap (fun e => match e.2 with | .bool x => some (e.1, x) | _ => none)
 
 /-- `Server.typeMapsToFields`: `for k, v := range strs { fields[k] = v }`, then ints, floats, bools. -/
-def typeMapsToFields (strs : GoMap String) (floats : GoMap Nat) (ints : GoMap Int) (bools : GoMap Bool) : Fields :=
+def typeMapsToFields (strs : GoMap Str) (floats : GoMap Nat) (ints : GoMap Int) (bools : GoMap Bool) : Fields :=
   let f : Fields := strs.foldl (fun m e => mapSet m e.1 (.str e.2)) []
   let f := ints.foldl (fun m e => mapSet m e.1 (.int e.2)) f
   let f := floats.foldl (fun m e => mapSet m e.1 (.float e.2)) f
@@ -289,7 +356,7 @@ def writeBegin (b : Begin) : Request :=
   .begin { name := b.name, group := b.group, tags := b.tags, size := b.sizeHint, byName := b.byName }
 
 /-- `Server.writeBatchPoint`. -/
-def writeBatchPoint (group : String) (bp : BP) : Request :=
+def writeBatchPoint (group : Str) (bp : BP) : Request :=
   .point { time := bp.time, group := group, tags := bp.tags, fDouble := floatsOf bp.fields, fInt := intsOf bp.fields,
            fString := strsOf bp.fields, fBool := boolsOf bp.fields }
 
@@ -359,7 +426,7 @@ inductive Out where
   | init (ok : Bool)
   | snapshot (b : List Nat)
   | restore (ok : Bool)
-  | abort (e : String)           -- ErrorResponse: the server aborts
+  | abort (e : Str)           -- ErrorResponse: the server aborts
 deriving DecidableEq, Repr, Inhabited
 
 def pbFields (p : PBPoint) : Fields := typeMapsToFields p.fString p.fDouble p.fInt p.fBool
@@ -404,21 +471,27 @@ structure Session where
   wbegin : Option Begin := none     -- writeData's `begin`
   peer : Peer := {}
   rstate : RState := {}
+  aborted : Bool := false           -- writeRequest failed: writeData returned the error, the server aborted
 deriving Repr, Inhabited
 
-/-- Write the requests of one edge message, let the peer answer each, handle every response in order
-(direct responses before echoed ones for the same request — one legal order). -/
+/-- Write the requests of one edge message one by one (`writeRequest`: a request that does not marshal is a write
+error, `writeData` returns it and the server aborts — nothing more is written or handed out); let the peer answer
+each, handle every response in order (direct responses before echoed ones for the same request — one legal order). -/
 def Session.requests (s : Session) (reqs : List Request) : Option (Session × List Out) :=
   reqs.foldl (fun acc r =>
     match acc with
     | none => none
     | some (s, outs) =>
-      let (peer', direct, echoed) := agentStep s.peer r
-      match handleAll s.rstate (direct ++ echoed) with
-      | none => none
-      | some (rs', os) => some ({ s with peer := peer', rstate := rs' }, outs ++ os)) (some (s, []))
+      if s.aborted then some (s, outs)
+      else if !marshalOK r then some ({ s with aborted := true }, outs)
+      else
+        let (peer', direct, echoed) := agentStep s.peer r
+        match handleAll s.rstate (direct ++ echoed) with
+        | none => none
+        | some (rs', os) => some ({ s with peer := peer', rstate := rs' }, outs ++ os)) (some (s, []))
 
 def Session.send (s : Session) (m : EdgeMsg) : Option (Session × List Out) :=
+  if s.aborted then some (s, []) else
   match serverWrite s.wbegin m with
   | none => none
   | some (wb, reqs) => ({ s with wbegin := wb } : Session).requests reqs
